@@ -109,6 +109,7 @@ type Interp struct {
 	cur      *thread
 	symSched bool
 	switches     int
+	preemptBudget int // >0: preemption-bounded scheduling (rt.PreemptBound)
 	pendingAbort *pathAbort
 	mutexes      map[*value]*mstate
 	exp          *explorer
@@ -858,7 +859,7 @@ func (i *Interp) checkInitOK(pkg *ssa.Package) {
 }
 
 func isOpaquePath(path string) bool {
-	for _, p := range []string{"modernc.org/", "github.com/mattn/go-sqlite3", "golang.org/x/sys", "github.com/creack/pty", "github.com/fsnotify"} {
+	for _, p := range []string{"crypto/", "internal/", "hash/", "vendor/golang.org/x/crypto","modernc.org/", "github.com/mattn/go-sqlite3", "golang.org/x/sys", "github.com/creack/pty", "github.com/fsnotify"} {
 		if strings.HasPrefix(path, p) {
 			return true
 		}
